@@ -93,8 +93,10 @@ def analyse(ctx, name, agg):
         if d.get("kind") == "pipeline":
             if (i + 1) in bad_lines:
                 # the proofs are about another composition: a proof-coverage failure, not a failing input
-                ctx.proof_failures.append(f"the optimizer list at the {d.get('backend')} call site is {impl[i]} "
-                                          f"but the theorems are about {model[i]}")
+                msg = (f"the {d.get('backend')} call site is {impl[i]} but the theorems (and the harness-built "
+                       f"optimizers) are about {model[i]}")
+                ctx.say("  call site not covered: " + msg)
+                ctx.proof_failures.append(msg)
             continue
         if (i + 1) in bad_lines:
             why = "implementation differs from the proved model"
@@ -118,7 +120,7 @@ def analyse(ctx, name, agg):
         if why is None:
             continue
         agg["flagged_lines"] += 1
-        if (cur, why) in reported_prog or len(ctx.violations) >= 12:
+        if (cur, why) in reported_prog or len(reported_prog) >= 8:   # at most 8 replays per stream
             continue
         reported_prog.add((cur, why))
         agg["flagged_programs"].add((name, cur))
